@@ -11,8 +11,8 @@
   2. `annField` / `assignField` — `StructMeta.__new__`: `add_annotations_to_class_dict`
      (`is_simple_field_annotation`, `get_typing_lib_info` = `gtli`, `_get_mapped_args` = `gtliArgs`,
      `_mapped_type_of_mapped_args` = `mkFromArgs`, `_handle_typing_optional`,
-     `_type_with_default_value_if_exists`), `_evaluate_if_future_annotations` (the 50-character
-     rule), `_instantiate_fields_if_needed`, the non-typedpy-assignment guard, and
+     `_type_with_default_value_if_exists`), `_evaluate_if_future_annotations`,
+     `_instantiate_fields_if_needed`, the non-typedpy-assignment guard, and
      `_apply_default_and_update_required_not_to_include_fields_with_defaults`.
 
   `convert_basic_types`, `type_is_generic`, `__origin__` and `isinstance(_, type)` are read from the
@@ -222,7 +222,11 @@ def gtli (tm : TypeMap) : Obj → R (Option FieldDecl)
     match tm.cbt .tUnion with
     | none => .error .typeErr
     | some h => bindE (gtliArgs tm (h == .anyOf) ms) fun ds => someDecl (mkFromArgs h ds)
-  | .uType _ => .ok none
+  /- PEP 604 `int | str`: `v = typing.Union[v.__args__]`, then as above -/
+  | .uType ms =>
+    match tm.cbt .tUnion with
+    | none => .error .typeErr
+    | some h => bindE (gtliArgs tm (h == .anyOf) ms) fun ds => someDecl (mkFromArgs h ds)
   | .noneV => .ok none
 termination_by structural o => o
 /-- `_get_mapped_args` -/
@@ -255,17 +259,21 @@ def mapToField : Obj → R (Option FieldDecl)
   | .fcls h => someDecl (defaultDecl h)
   | _ => .error .typeErr
 
-def cbtObj (tm : TypeMap) : Obj → Option Head
-  | .ty a => tm.cbt a
-  | _ => none
+/-- `_or_fields`: a non-field right operand that is not `None` goes through `get_typing_lib_info`;
+    a TypeError of the conversion, or no conversion, is the `|`-TypeError -/
+def orConverted (dl : FieldDecl) (r : R (Option FieldDecl)) : R Obj :=
+  match r with
+  | .ok (some dr) => .ok (.finst (.anyOf [dl, dr]))
+  | .ok none => .error .typeErr
+  | .error e => .error e
 
 /-- `_or_fields(first, other)` -/
 def orFields (tm : TypeMap) (l r : Obj) : R Obj :=
   bindE (getItem tm l) fun dl =>
   if isFieldObj r then bindE (getItem tm r) fun dr => .ok (.finst (.anyOf [dl, dr]))
-  else match cbtObj tm r with
-    | some h => bindE (defaultDecl h) fun dr => .ok (.finst (.anyOf [dl, dr]))
-    | none => .error .typeErr
+  else match r with
+    | .noneV => .ok (.finst (.anyOf [dl, .noneF]))
+    | _ => orConverted dl (gtli tm r)
 
 /-- operands for which `type.__or__` / `GenericAlias.__or__` builds a `types.UnionType` -/
 def plainType (tm : TypeMap) : Obj → Bool
@@ -507,13 +515,13 @@ def assignField (tm : TypeMap) (fs : FieldSp) (o : Obj) : R FieldRes :=
     | .noneV => .ok .dropped
     | .noneTy => .error .typeErr
 
-/-- one field of the class body.  With `from __future__ import annotations` an annotation whose text
-    has 50 or more characters is never evaluated and declares nothing. -/
-def elabField (O : Oracles) (tm : TypeMap) (future : Bool) (fs : FieldSp) : R FieldRes :=
+/-- one field of the class body.  `future` = the module has `from __future__ import annotations`: the
+    annotation is then stored as text and evaluated by `_evaluate_if_future_annotations` whatever its
+    length (the 50-character guard only applies to string annotations in modules *without* the import,
+    which are not in the spelling grammar), so the flag does not influence the result. -/
+def elabField (O : Oracles) (tm : TypeMap) (_future : Bool) (fs : FieldSp) : R FieldRes :=
   match fs.mode with
-  | .ann =>
-    if future && decide (50 ≤ annLenField fs) then .ok .dropped
-    else bindE (evTop O tm fs) fun o => annField O tm fs o
+  | .ann => bindE (evTop O tm fs) fun o => annField O tm fs o
   | .assign => bindE (evTop O tm fs) fun o => assignField tm fs o
 
 structure ClassSp where
